@@ -6,10 +6,24 @@ re-scheduling of fully buffered versions; a crash is `Node.kill`: the durable fi
 `buf`, `dbv` — and the gap rows, which the model keeps as the committed `needed` — survive, the
 apply loop is gone, and `restart` forgets the in-memory bookkeeping).  Helper definitions and lemmas:
 `Corro/Lemmas/NodeRestart.lean` (`restartTasks`, `applyTask`, `reloaded`, `bufOf`, `LoadInv`),
-`NodeSeq.lean` (`SeqMem`, `rowsOf`), `NodeConsistent.lean` (`Consistent`).
+`NodeSeq.lean` (`SeqMem`, `rowsOf`), `NodeConsistent.lean` (`ItemWF`, `ConsP`/`ConsA`, `Consistent`,
+`NoPending`, `HasRows`), `NodeTx.lean`/`NodeCommit.lean`/`NodeActor.lean`/`NodeDeliverCons.lean`
+(preservation by `deliver`), `NodeRoundtrip.lean`, `NodeSync.lean`, `NodeCrash.lean`.
+
+**`Consistent L n`** ("the durable state is consistent with the memory"; `L actor version` is the
+true `last_seq` of every version) says, for every actor `a` with in-memory bookkeeping
+`b = n.booked a` (`ConsA L n a`, fields of `ConsP` with no clear job pending):
+* the partials of `b` have canonical seq ranges and are sorted by version; the actor map is sorted;
+* every sequence row of `a` is forward and carries `last_seq = L a ver`; so does every partial;
+* a version with sequence rows has a partial whose seq set is exactly the points of its rows;
+* a partial without sequence rows is complete (it was applied and its rows cleared);
+* every buffered row of `a` lies inside a sequence row of its version;
+* `b.max` is the maximum of `a`'s db-version row and the versions that have sequence rows;
+* `b.needed` is canonical and no version with a partial is needed or above `b.max`.
+It is what `localWrite`, `deliver` (for `ItemWF L` inputs), the background applies and `restart`
+maintain (`fresh_consistent`, `localWrite_consistent`, `deliver_consistent`, `restart_consistent`).
 -/
-import Corro.Lemmas.NodeRestart
-import Corro.Lemmas.NodeEx
+import Corro.Lemmas.NodeExFacts
 
 namespace Corro.Node
 open Corro.Crdt
@@ -134,6 +148,202 @@ example : pending.alive = false ∧ pending.seqRows = [⟨1, 3, 0, 3, 3⟩] ∧ 
 /-- `srv` holds version 3 only in part: no task, restart leaves the durable state alone and the
 rebuilt sync state is the one before -/
 example : restartTasks srv = [] ∧ (srv.restart).syncState = srv.syncState := by decide
+
+end Ex
+
+/-! ### the invariant `Consistent` is maintained -/
+
+/-- a fresh node is consistent -/
+theorem fresh_consistent' (L : Nat → Nat → Nat) (i : Nat) : Consistent L (Node.fresh i) :=
+  fresh_consistent L i
+
+/-- **C06 ("every local transaction it acknowledged …": the local write keeps memory and durable
+state together).**  `localWrite` preserves `Consistent`. -/
+theorem localWrite_consistent {L : Nat → Nat → Nat} {n n' : Node} {stmts : List Stmt}
+    {out : Option (Nat × List Chg)} (hc : Consistent L n) (h : n.localWrite stmts = .ok (n', out)) :
+    Consistent L n' :=
+  localWrite_consistent' hc h
+
+/-- **C06 (every remote delivery — complete, partial, empty, any batch, any actors — keeps memory
+and durable state together).**  `deliver` (one `process_multiple_changes` batch, its clear jobs
+and, on an alive node, its re-applies) preserves `Consistent`, for inputs that are well formed
+relative to the versions' true `last_seq` (`ItemWF L`).  The node may be dead or alive. -/
+theorem deliver_consistent {L : Nat → Nat → Nat} {n : Node} (hc : Consistent L n) (batch : List Item)
+    (hwf : ∀ it ∈ batch, ItemWF L it) : Consistent L (n.deliver batch) :=
+  deliver_consistent' hc batch hwf
+
+/-- an alive node on which every complete partial has been applied (`NoPending`) is in the same
+situation after `deliver` -/
+theorem deliver_noPending {L : Nat → Nat → Nat} {n : Node} (hc : Consistent L n) (batch : List Item)
+    (hwf : ∀ it ∈ batch, ItemWF L it) (hal : n.alive = true) (hnp : NoPending n) :
+    NoPending (n.deliver batch) :=
+  deliver_noPending' hc batch hwf hal hnp
+
+/-- **C06 (restart).**  The restarted node is consistent, alive, and has nothing pending. -/
+theorem restart_consistent {L : Nat → Nat → Nat} {n : Node} (hc : Consistent L n) :
+    Consistent L n.restart ∧ NoPending n.restart ∧ (n.restart).alive = true :=
+  ⟨restart_consistent' hc, restart_noPending hc, (restart_effect n).2.2⟩
+
+/-- a crash (`kill`) does not touch what `Consistent` speaks about -/
+theorem kill_consistent {L : Nat → Nat → Nat} {n : Node} (hc : Consistent L n) : Consistent L n.kill :=
+  hc.kill
+
+/-! ### the sync state rebuilt after a crash -/
+
+/-- **C06 ("the sync state it rebuilds advertises as held only versions whose changes are durably
+stored, while every version it lacks is again listed as needed, partial or beyond its head").**
+For a consistent node — dead or alive, with or without fully buffered versions waiting for their
+apply — the restart rebuilds, actor by actor:
+* the same head, and it is the maximum of the actor's db-version row and the versions that have
+  sequence rows;
+* the same `needed`;
+* for a version with sequence rows, the partial that was in memory; for a version without, none
+  (in memory there may be a complete, applied partial — it is not advertised either);
+and therefore **literally the same sync state** `generate_sync` gave before the crash. -/
+theorem restart_roundtrip {L : Nat → Nat → Nat} {n : Node} (hc : Consistent L n) :
+    (n.restart).syncState = n.syncState ∧
+    ∀ a, ((n.restart).booked a).max = (n.booked a).max ∧
+      (dbvOf n a ≤ (n.booked a).max ∧ (∀ r ∈ n.seqRows, r.site = a → r.ver ≤ (n.booked a).max) ∧
+        ((n.booked a).max ≤ dbvOf n a ∨ ∃ r ∈ n.seqRows, r.site = a ∧ (n.booked a).max ≤ r.ver)) ∧
+      ((n.restart).booked a).needed = (n.booked a).needed ∧
+      (∀ v, HasRows n a v → ((n.restart).booked a).partial? v = (n.booked a).partial? v) ∧
+      (∀ v, ¬ HasRows n a v → ((n.restart).booked a).partial? v = none) := by
+  refine ⟨restart_syncState hc, ?_⟩
+  intro a
+  rw [restart_booked hc]
+  obtain ⟨h1, h2, h3, h4, _, _⟩ := reloaded_spec hc a
+  have ha := hc.actor a
+  refine ⟨h1, ⟨ha.dbv_le, ha.rows_le, ?_⟩, h2, h3, h4⟩
+  rcases ha.max_att with h5 | ⟨r, hr, hs, h5, _⟩
+  · exact Or.inl h5
+  · exact Or.inr ⟨r, hr, hs, h5⟩
+
+/-- "`m` counts `(a, v)` as held": at or below the head, not needed, not an incomplete partial -/
+def Held (m : Node) (a v : Nat) : Prop :=
+  v ≤ (m.booked a).max ∧ ¬ RSet.Mem (m.booked a).needed v ∧
+    ∀ p, (m.booked a).partial? v = some p → p.complete = true
+
+/-- **C06 (`restart_never_claims_unheld`).**  The restarted node counts a version as held iff the
+node before the crash did; and the store after the restart is the store before with the fully
+buffered versions (`restartTasks n`) applied — nothing else changed, nothing is dropped. -/
+theorem restart_never_claims_unheld {L : Nat → Nat → Nat} {n : Node} (hc : Consistent L n) (a v : Nat) :
+    (Held n.restart a v ↔ Held n a v) ∧
+    (n.restart).db = ((restartTasks n).foldl applyTask (n.db, n.buf)).1 := by
+  obtain ⟨_, hrt⟩ := restart_roundtrip hc
+  obtain ⟨h1, _, h2, h3, h4⟩ := hrt a
+  refine ⟨?_, by rw [← (restart_effect n).1]⟩
+  unfold Held
+  rw [h1, h2]
+  constructor
+  · rintro ⟨k1, k2, k3⟩
+    refine ⟨k1, k2, ?_⟩
+    intro p hp
+    by_cases hr : HasRows n a v
+    · exact k3 p (by rw [h3 v hr]; exact hp)
+    · exact (hc.actor a).norows_part v p hp hr
+  · rintro ⟨k1, k2, k3⟩
+    refine ⟨k1, k2, ?_⟩
+    intro p hp
+    by_cases hr : HasRows n a v
+    · exact k3 p (by rw [← h3 v hr]; exact hp)
+    · rw [h4 v hr] at hp; cases hp
+
+/-- **C06 (`restart_keeps_obligations`: "no sync obligation is lost").**  Every version that the
+node needed is needed after the restart; every version it held as an incomplete partial is the same
+incomplete partial after the restart (and still has its rows); a version it held as a complete
+partial with rows (fully buffered, not applied) is a restart task and has no rows afterwards. -/
+theorem restart_keeps_obligations {L : Nat → Nat → Nat} {n : Node} (hc : Consistent L n) (a v : Nat) :
+    (RSet.Mem ((n.restart).booked a).needed v ↔ RSet.Mem (n.booked a).needed v) ∧
+    (∀ p, (n.booked a).partial? v = some p → p.complete = false →
+      ((n.restart).booked a).partial? v = some p ∧ HasRows n a v) ∧
+    (∀ p, (n.booked a).partial? v = some p → p.complete = true → HasRows n a v →
+      (a, v) ∈ restartTasks n ∧ ¬ HasRows n.restart a v) := by
+  obtain ⟨_, hrt⟩ := restart_roundtrip hc
+  obtain ⟨_, _, h2, h3, _⟩ := hrt a
+  refine ⟨by rw [h2], ?_, ?_⟩
+  · intro p hp hinc
+    have hr : HasRows n a v := by
+      apply Classical.byContradiction
+      intro hnr
+      have := (hc.actor a).norows_part v p hp hnr
+      rw [hinc] at this; cases this
+    exact ⟨by rw [h3 v hr]; exact hp, hr⟩
+  · intro p hp hcomp hr
+    refine ⟨(mem_restartTasks_cons hc a v).mpr ⟨hr, p, hp, hcomp⟩, ?_⟩
+    exact restart_noPending hc a v p (by rw [h3 v hr]; exact hp) hcomp
+
+/-! ### a crash between the commit that stores data and the background apply -/
+
+/-- **C06 ("a crash placed … between the commit that stores data and the in-memory update / the
+apply that follows it").**  For an alive consistent node and ANY batch of well-formed changesets:
+killing the node right before the delivery (so that the transaction commits, the clear jobs run,
+but the background apply of the versions completed by the batch never happens) and restarting it
+afterwards ends in **the same sync state** as the uninterrupted delivery. -/
+theorem kill_then_deliver_then_restart {L : Nat → Nat → Nat} {n : Node} (hc : Consistent L n)
+    (batch : List Item) (hwf : ∀ it ∈ batch, ItemWF L it) (hal : n.alive = true) :
+    (((n.kill).deliver batch).restart).syncState = (n.deliver batch).syncState :=
+  crash_syncState hc batch hwf hal
+
+/-- … and, when the batch consists of changesets of one version `(s, v)` (any chunks of it, in any
+order, with duplicates) and nothing was pending before, in **the same store**: the apply that the
+crash prevented is re-scheduled by the restart and merges the same buffered rows in the same order.
+(For batches completing several versions the two runs apply them in different orders — batch order
+vs. `(actor, version)` order — so the stores agree as CRDT states (C01) but this literal equality of
+the row lists is only claimed for one version.) -/
+theorem kill_then_deliver_then_restart_db {L : Nat → Nat → Nat} {n : Node} (hc : Consistent L n)
+    (batch : List Item) (hwf : ∀ it ∈ batch, ItemWF L it) (hal : n.alive = true) (hnp : NoPending n)
+    (s v : Nat) (hone : ∀ it ∈ batch, it.site = s ∧ it.versions.1 = v) :
+    (((n.kill).deliver batch).restart).db = (n.deliver batch).db :=
+  crash_db_one hc batch hwf hal hnp s v hone
+
+/-- what the killed node looks like in between: the transaction and the clear jobs happened, the
+re-applies did not -/
+theorem kill_deliver_is_preApply (n : Node) (batch : List Item) :
+    (n.kill).deliver batch = (preApply n batch).kill :=
+  kill_deliver n batch
+
+namespace Ex
+
+/-- the hypotheses of `kill_then_deliver_then_restart(_db)` hold for `srv` and the last chunk of
+version 3; both runs end with version 3 applied and the same sync state -/
+example : Consistent L srv ∧ srv.alive = true ∧ NoPending srv ∧
+    (∀ it ∈ [Item.full 1 3 2 3 3 v3hi], ItemWF L it ∧ it.site = 1 ∧ it.versions.1 = 3) ∧
+    ((srv.kill).deliver [Item.full 1 3 2 3 3 v3hi]).restart.db.rows =
+      (srv.deliver [Item.full 1 3 2 3 3 v3hi]).db.rows ∧
+    ((srv.deliver [Item.full 1 3 2 3 3 v3hi]).live 1 3) = v3 := by
+  refine ⟨srv_consistent, by decide, srv_noPending, ?_, by decide, by decide⟩
+  intro it hit
+  simp only [List.mem_singleton] at hit
+  subst hit
+  exact ⟨⟨rfl, by decide, by decide⟩, rfl, rfl⟩
+
+/-- why `kill_then_deliver_then_restart_db` is stated for one version: a batch that completes
+versions 2 and 1 of actor 1 in that order is applied in batch order by the live node and in
+`(actor, version)` order by the restart, so the row LISTS of the model differ (same rows, same
+sync state, same CRDT view) -/
+example :
+    let c : String → Nat → Nat → Chg := fun pk v s => ⟨"t", pk, "a", .int 1, 1, 1, 1, v, s⟩
+    let base := ((Node.fresh 9).deliver [Item.full 1 1 0 0 1 [c "1" 1 0]]).deliver
+      [Item.full 1 2 0 0 1 [c "2" 2 0]]
+    let batch := [Item.full 1 2 1 1 1 [c "2b" 2 1], Item.full 1 1 1 1 1 [c "1b" 1 1]]
+    (base.deliver batch).db.rows.map (·.pk) = ["2", "2b", "1", "1b"] ∧
+    ((base.kill).deliver batch).restart.db.rows.map (·.pk) = ["1", "1b", "2", "2b"] ∧
+    (base.deliver batch).syncState = ((base.kill).deliver batch).restart.syncState := by decide
+
+/-- **Observation (outside `ItemWF`): a relay that lost the tail of a version answers with a
+smaller `last_seq`.**  Node 9 holds seqs 0..1 of version 3 (`last_seq = 3`, from the origin); a relay
+whose live changes of version 3 end at seq 2 answers the request for `2..=2` with `last_seq = 2`.
+In memory the partial keeps `last_seq = 3` and stays incomplete (seq 3 missing); the stored row
+`0..=2` now carries `last_seq = 2`, so after a crash `from_conn` rebuilds a COMPLETE partial and the
+restart applies seqs 0..2 and advertises version 3 as held — the obligation for seq 3 is gone.
+(Harmless for convergence only because seq 3 was overwritten by a later version that the node will
+also receive; `restart_keeps_obligations` assumes inputs with the true `last_seq`.) -/
+example :
+    let n := (srv.kill).deliver [Item.full 1 3 2 2 2 [ch "4" "a" 1 3 2]]
+    ((n.booked 1).partial? 3 = some ⟨[(0, 2)], 3⟩) ∧ n.seqRows = [⟨1, 3, 0, 2, 2⟩] ∧
+    n.syncState.partialNeed = [(1, [(3, [(3, 3)])])] ∧
+    restartTasks n = [(1, 3)] ∧ (n.restart).syncState.partialNeed = [] ∧ (n.restart).seqRows = [] := by
+  decide
 
 end Ex
 
